@@ -6,6 +6,7 @@ from collections.abc import Callable
 from typing import Any, NamedTuple, Protocol
 
 from ..input import Cursor
+from ..util.strtools import isreserved
 
 
 # NOTE duplicate definition to avoid circular dependencies
@@ -52,6 +53,9 @@ class RuleInfo(NamedTuple):
     @staticmethod
     def new(instance: Any, func: Callable, params=None, kwparams=None) -> RuleInfo:
         name = getattr(func, '__name__', '<?>')
+        if name.endswith('_') and isreserved(name[:-1]):
+            # NOTE: the method of a rule named like a reserved word is padded by safe_name(); the rule keeps its name
+            name = name[:-1]
         is_tokn = name.lstrip('_')[:1].isupper()
         return RuleInfo(
             name=name,
